@@ -2,7 +2,7 @@
 from lib.a_adaptive import AdaptiveAdapter, GridEmb
 from lib.runner import CheckContext
 
-VIEW = {"accepted", "bins", "freq", "err2", "missed", "total", "ret", "adaptive", "live"}
+VIEW = {"accepted", "bins", "freq", "err2", "missed", "total", "ret", "adaptive", "live", "dtype_consistent"}
 REQ = ["NewEmpty", "NewFilled", "Fill", "FillN"]
 
 GRIDS_QUICK = [
